@@ -205,6 +205,9 @@ pub mod dom {
     pub static mut CH: [[u8; MAXC]; MAXN] = [[0; MAXC]; MAXN];
     pub static mut NNODES: usize = 0;
     pub static mut IDCODE: [u16; MAXN] = [0; MAXN];          // 0 = no id attribute; otherwise a code of the id string
+    pub static mut PARENT: [u8; MAXN] = [255; MAXN];
+    pub static mut TEXT: [u8; MAXN] = [0; MAXN];             // index into TEXTS (leaf text)
+    pub const TEXTS: [&str; 6] = ["", ".", "\u{2026}", "+", "x", "1"];
     pub const NAMES: [&str; 8] = ["mi", "none", "mprescripts", "mmultiscripts", "mtext", "mrow", "mn", "mo"];
     #[derive(Clone, Copy, PartialEq, Eq, Debug)] pub struct Element<'a> { pub id: u8, pub p: PhantomData<&'a ()> }
     #[derive(Clone, Copy, PartialEq, Eq, Debug)] pub enum ChildOfElement<'a> { Element(Element<'a>) }
@@ -228,15 +231,26 @@ pub mod dom {
             v
         }
         pub fn replace_children(&self, new: KVec<ChildOfElement<'a>>) {
-            unsafe { assert!(new.len() <= MAXC, "model child list overflow"); NCH[self.id as usize] = new.len() as u8; let mut i = 0; while i < new.len() { let ChildOfElement::Element(e) = new[i]; CH[self.id as usize][i] = e.id; i += 1; } }
+            unsafe { assert!(new.len() <= MAXC, "model child list overflow"); NCH[self.id as usize] = new.len() as u8; let mut i = 0; while i < new.len() { let ChildOfElement::Element(e) = new[i]; CH[self.id as usize][i] = e.id; PARENT[e.id as usize] = self.id; i += 1; } }
         }
-        pub fn append_child_id(&self, c: u8) { unsafe { let n = NCH[self.id as usize] as usize; CH[self.id as usize][n] = c; NCH[self.id as usize] = (n + 1) as u8; } }
+        pub fn append_child_id(&self, c: u8) { unsafe { let n = NCH[self.id as usize] as usize; CH[self.id as usize][n] = c; NCH[self.id as usize] = (n + 1) as u8; PARENT[c as usize] = self.id; } }
+        pub fn set_text(&self, t: &str) { let b = t.as_bytes(); let code = if b.is_empty() { 0 } else if b[0] == b'.' { 1 } else if b[0] == 0xE2 { 2 } else if b[0] == b'+' { 3 } else if b[0] == b'x' { 4 } else { 5 }; unsafe { TEXT[self.id as usize] = code; } }
+        pub fn remove_from_parent(&self) {
+            unsafe {
+                let p = PARENT[self.id as usize] as usize;
+                if p == 255 { return; }
+                let n = NCH[p] as usize; let mut i = 0; let mut j = 0;
+                while i < n { if CH[p][i] != self.id { CH[p][j] = CH[p][i]; j += 1; } i += 1; }
+                NCH[p] = j as u8; PARENT[self.id as usize] = 255;
+            }
+        }
         pub fn document(&self) -> Document<'a> { Document(PhantomData) }
         /// only the "id" attribute is modelled; its value is kept as a code: (first byte << 8) | last byte  (injective on the ids the harnesses use)
         pub fn attribute(&self, nm: &str) -> Option<u16> { if nm.len() == 2 { let c = unsafe { IDCODE[self.id as usize] }; if c == 0 { None } else { Some(c) } } else { None } }
         pub fn set_attribute_value(&self, nm: &str, value: &str) { if nm.len() == 2 { unsafe { IDCODE[self.id as usize] = id_code(value); } } }
     }
     pub fn id_code(value: &str) -> u16 { ((value.as_bytes()[0] as u16) << 8) | (value.as_bytes()[value.len() - 1] as u16) }
+    pub fn as_text<'a>(e: Element<'a>) -> &'static str { TEXTS[unsafe { TEXT[e.id as usize] } as usize] }
     pub fn name<'a>(e: &Element<'a>) -> &'static str { NAMES[unsafe { KIND[e.id as usize] } as usize] }
     pub fn as_element<'a>(c: ChildOfElement<'a>) -> Element<'a> { let ChildOfElement::Element(e) = c; e }
     pub fn create_mathml_element<'a>(_doc: &Document<'a>, nm: &str) -> Element<'a> {
@@ -244,7 +258,7 @@ pub mod dom {
         let e = new_node(kind); Element { id: e.id, p: PhantomData }
     }
 }
-use dom::{Element, ChildOfElement, Document, name, as_element, create_mathml_element};
+use dom::{Element, ChildOfElement, Document, name, as_element, as_text, create_mathml_element};
 #[allow(unused_imports)] use dom::KVec as Vec;
 '''
 
